@@ -22,7 +22,7 @@ META = {
     "exhaustive": {"quick": True, "thorough": True},
     "space": {"quick": "all labelled binary trees <=5 leaves; all subsets of the triples on 3 leaves and all 4096 subsets on 4 leaves; all union histories <=4 on 5 elements (11 111)", "thorough": "all labelled binary trees <=6 leaves; all 4096 triple subsets on 4 leaves, random subsets on 5-6 leaves; all union histories <=4 on 5 elements (11 111)"},
     "assumptions": ["triples are passed in the canonical form produced by the package (cherry first, lexicographically ordered)"],
-    "timeout": {"quick": 600, "thorough": 3600},
+    "timeout": {"quick": 420, "thorough": 3600},
 }
 
 LEAVES = "abcdef"
